@@ -452,7 +452,9 @@ def finish(ctx, manifest_entry, res, trusted_base, assumptions, level, checker_c
         "coverage": cov, "assumptions": assumptions,
         "wall_s": round(time.time() - ctx.t0, 1), "violations": len(by_kind) + (1 if (proof_broken and not new_viol) else 0),
     }
-    json.dump(ev, open(os.path.join(EVID, "%s.json" % pid), "w"), indent=1, default=str)
+    # --no-proof is a development aid: its result is not evidence (no obligations were discharged) and goes elsewhere
+    evname = "%s.noproof.json" % pid if getattr(ctx, "skip_proof", False) else "%s.json" % pid
+    json.dump(ev, open(os.path.join(EVID, evname), "w"), indent=1, default=str)
     print("[%s] %s: %d evaluations, %d distinct non-trivial, %d/%d theorems, %d new violation kind(s), %.0fs" % (
         pid, ctx.tier, res.evaluations, len(res.distinct), cov["discharged"], cov["obligations"], ev["violations"],
         time.time() - ctx.t0))
